@@ -247,7 +247,7 @@ func (ex *Exec) collectWitness(st *State, fn *ssa.Function, args []SVal) {
 			if depth < 2 {
 				h := ex.w.elemHeap(u.Elem())
 				for i := 0; i < 4; i++ {
-					walk(fmt.Sprintf("%s[%d]", name, i), sel(sel(ex.heapTerm(st, h), sArr(term)), add(sOff(term), fmt.Sprint(i))), u.Elem(), depth+1)
+					walk(fmt.Sprintf("%s[%d]", name, i), sel(sel(ex.heapTerm(st, h), sArr(term)), idxT(sOff(term), fmt.Sprint(i))), u.Elem(), depth+1)
 				}
 			}
 		case *types.Interface:
